@@ -23,6 +23,9 @@
 (*             shuffles)                                                   *)
 (*   "raw"     (UseRawPath = true) pairs/triples from the depth-1/2        *)
 (*             universe looked up with percent-escaped values              *)
+(*   "opt"     OptCount seeded pairs/triples under each of the four        *)
+(*             combinations UseRawPath x UnescapePathValues, looked up     *)
+(*             with "+", "%2B", "%41", "%2541" in parameter positions      *)
 (* In the set families every second route has its parameter names         *)
 (* suffixed ("/:x/a" next to "/:x2/b"), so routes sharing a parameter node *)
 (* disagree about its name.                                                *)
@@ -40,7 +43,8 @@ CONSTANTS Segs,         \* segment alphabet of the exhaustive universe, e.g. {"a
           TripleCount,  \* 0 = all triples
           RandSegs, RandDepth, RandCount, RandMaxK,
           RandAllK,     \* seeded sets up to this size get all their registration orders, larger ones 6 seeded orders
-          RawCount
+          RawCount,
+          OptCount      \* route sets tried under each of the 4 combinations UseRawPath x UnescapePathValues
 
 Seed == atoi(IOEnv.VERIF_SEED)
 
@@ -65,11 +69,10 @@ Inst(toks, d, pv, av) ==
 Near(s) == {s, s \o "/", s \o "/a"} \cup (IF Len(s) > 1 /\ EndsWith(s, "/") THEN {SubSeq(s, 1, Len(s) - 1)} ELSE {})
 
 PathsOf(pats, pv, av) == UNION {UNION {Near(s) : s \in Inst(Parse(p).toks, 1, pv, av)} : p \in pats}
-OkPath(s, raw) == IF raw THEN InScopeRawPath(s) ELSE InScopePath(s)
 
-LookupsOf(pats, pv, av, pv1, av1, raw) ==
-  LET g == {s \in PathsOf(pats, pv, av) : OkPath(s, raw)}
-      p == {s \in UNION {Inst(Parse(q).toks, 1, pv1, av1) : q \in pats} : OkPath(s, raw)}
+LookupsOfOpt(pats, pv, av, pv1, av1, raw, unesc) ==
+  LET g == {s \in PathsOf(pats, pv, av) : InScopeSent(raw, unesc, s)}
+      p == {s \in UNION {Inst(Parse(q).toks, 1, pv1, av1) : q \in pats} : InScopeSent(raw, unesc, s)}
   IN SetToSeq({[m |-> "GET", path |-> s] : s \in g}) \o SetToSeq({[m |-> "POST", path |-> s] : s \in p})
 
 -----------------------------------------------------------------------------
@@ -96,6 +99,8 @@ SomeOrders(k, x) == <<Ident(k), [i \in 1 .. k |-> k + 1 - i]>> \o [j \in 1 .. 4 
 (* cases *)
 RouteRec(m, p) == [m |-> m, pat |-> p, names |-> IF Valid(p) THEN Parse(p).names ELSE << >>]
 
+LookupsOf(pats, pv, av, pv1, av1, raw) == LookupsOfOpt(pats, pv, av, pv1, av1, raw, TRUE)
+
 \* how the engine of each order is set up before the routes are registered (the obligation is the same in every mode:
 \* the handler that runs is the one registered for the matched route):
 \*   "plain"  no middleware
@@ -103,7 +108,7 @@ RouteRec(m, p) == [m |-> m, pat |-> p, names |-> IF Valid(p) THEN Parse(p).names
 \*   "group"  two engine.Use(noop), routes registered on engine.Group("", noop)
 ModeSeq == <<"plain", "use3", "group">>
 MkCase(fam, raw, routes, orders, lookups) ==
-  [fam |-> fam, raw |-> raw, esc |-> FALSE, routes |-> routes, orders |-> orders,
+  [fam |-> fam, raw |-> raw, unesc |-> TRUE, esc |-> FALSE, routes |-> routes, orders |-> orders,
    modes |-> [o \in 1 .. Len(orders) |-> ModeSeq[((o + Len(lookups)) % 3) + 1]], lookups |-> lookups]
 
 \* the pattern with every parameter name suffixed
@@ -168,7 +173,19 @@ RawIdx == IF RawCount = 0 THEN {} ELSE Sample(Len(RawSets), RawCount, 2)
 RawMinimal == RawCase({"/:x/b", "/*y"}, TRUE)          \* minimal case of known finding C06-rawpath-backtrack
 Raw == {c \in {RawCase(RawSets[i], e) : i \in RawIdx, e \in BOOLEAN} \cup {RawMinimal} : Len(c.lookups) > 0}
 
-Cases == SetToSeq(Singles \cup Twins \cup Pairs \cup Mixed \cup Invalid) \o SetToSeq(Triples) \o SetToSeq(Rand) \o SetToSeq(Raw)
+(* The option square UseRawPath x UnescapePathValues, looked up with "+", "%2B", "%41" and the doubly escaped "%2541" *)
+(* in parameter and catch-all positions (what the handler must see: Router!Routed / ParamList)                        *)
+OptPV == {"a+b", "%2B", "%2541", "%41", "c"}
+OptAV == {"", "%2541/a+b"}
+OptCase(S, raw, unesc) ==
+  LET ps == SetToSeq(S) IN
+  [MkCase("opt", raw, [k \in 1 .. Len(ps) |-> RouteRec("GET", ps[k])], AllOrders(Len(ps)),
+          LookupsOfOpt(S, OptPV, OptAV, {"%2541"}, {"a+b"}, raw, unesc)) EXCEPT !.unesc = unesc]
+OptIdx == IF OptCount = 0 THEN {} ELSE Sample(Len(RawSets), OptCount, 3)
+Opt == {c \in {OptCase(S, r, u) : S \in {RawSets[i] : i \in OptIdx} \cup {{"/a/:x", "/a/b/*w"}}, r \in BOOLEAN, u \in BOOLEAN}
+          : Len(c.lookups) > 0}
+
+Cases == SetToSeq(Singles \cup Twins \cup Pairs \cup Mixed \cup Invalid) \o SetToSeq(Triples) \o SetToSeq(Rand) \o SetToSeq(Raw) \o SetToSeq(Opt)
 
 ASSUME ndJsonSerialize(IOEnv.VERIF_OUT, [i \in 1 .. Len(Cases) |-> [id |-> i] @@ Cases[i]])
 
